@@ -213,7 +213,7 @@ def invalid_callable(d, name, shape):
 def c06_script(ctx, aid, oi, table, op):
     case = ctx.case
     gw = ctx.gws[case["gwi"]]
-    d = os.path.join("/dev/shm", case["scratch"])
+    d = os.path.join("/dev/shm", case["scratch"] + "-" + os.environ.get("VERIF_RUN_TAG", "00000000"))
     os.makedirs(d, exist_ok=True)
     created = []
     s = ctx.s
